@@ -94,6 +94,15 @@ def weakref_ref(E, st, args, kw):
     return [Res(st, VOpaque(w)), E.raise_(s2, "builtins.TypeError")]
 
 
+@R.spec("Pyro5.server._unpack_weakref", doc="the object itself, or the referent of a weak reference (DaemonError if the referent is gone); None stays None "
+                                            "(4-line repo function, taken as specified)")
+def unpack_weakref_exact(E, st, args, kw):
+    x = box(args[0])
+    s2 = st.fork()
+    s2.assume(is_weakref(x))
+    return [Res(st, VOpaque(z3.If(is_weakref(x), D.deref(x), x))), E.raise_(s2, "Pyro5.errors.DaemonError")]
+
+
 @R.spec("weakref.finalize", doc="registers a callback for when x is collected: event only")
 def weakref_finalize(E, st, args, kw):
     st.event("finalize", args[0], args[1:], dict(kw))
@@ -340,14 +349,20 @@ class Unregister(_RegBase):
                 ("every other id is untouched", z3.Implies(KSTAR != k, same_entry(old, st, self.d, KSTAR)))]
         if self.variant == "by-object":
             o = self.arg.e
-            post += [("an object that was registered loses its id and daemon attributes (it travels by value from now on)",
+            designated = z3.If(is_weakref(v0), D.deref(v0), v0)
+            post += [("unregistering an object removes an id only if that id designates this very object now (a stale or inherited id attribute "
+                      "never removes another object's registration)", z3.Implies(z3.And(p0, z3.Not(p1)), designated == o)),
+                     ("an object that was registered loses its id and daemon attributes (it travels by value from now on)",
                       z3.Implies(z3.And(k != DAEMON_KEY, p0), z3.And(z3.Not(has_attr(st, o, "_pyroId")), z3.Not(has_attr(st, o, "_pyroDaemon"))))),
                      ("nothing changes for an id that was not registered", z3.Implies(z3.Not(p0), same_attrs(old, st, o))),
                      ("the object's id and daemon attributes still come and go together", self.pair_invariant(st, o))]
         return post
 
     def x_unchanged(self, E, old, st, a, exc):
-        return [("a refused unregistration changes nothing", same_entry(old, st, self.d, KSTAR))]
+        post = [("a refused unregistration changes nothing", same_entry(old, st, self.d, KSTAR))]
+        if self.variant == "by-object":
+            post.append(("... not the object's attributes either", same_attrs(old, st, self.arg.e)))
+        return post
 
 
 @R.contract
@@ -372,15 +387,21 @@ class UriFor(_RegBase):
         if self.variant == "by-object":
             o = self.arg.e
             pid = attr_val(old, o, "_pyroId")
-            post.append(("an object gets a uri only while its id is registered in this daemon",
-                         z3.And(has_attr(old, o, "_pyroId"), pid != U_NONE, _entry(old, self.d, pid)[0])))
+            p_, v_ = _entry(old, self.d, pid)
+            target = z3.If(is_weakref(v_), D.deref(v_), v_)
+            post.append(("an object gets a uri only while its id designates it (or the class it is an instance of) in this daemon",
+                         z3.And(has_attr(old, o, "_pyroId"), pid != U_NONE, p_, z3.Or(target == o, z3.And(is_class(target), instance_of(o, target))))))
         return post
 
     def x_unknown(self, E, old, st, a, exc):
+        if self.variant != "by-object":
+            return [("an id string is never refused as unregistered (it is just text)", z3.BoolVal(False))]
         o = self.arg.e
         pid = attr_val(old, o, "_pyroId")
-        return [("refused only for an object whose id is not registered here", z3.BoolVal(self.variant == "by-object") if self.variant != "by-object" else
-                 z3.Or(z3.Not(has_attr(old, o, "_pyroId")), pid == U_NONE, z3.Not(_entry(old, self.d, pid)[0]))),
+        p_, v_ = _entry(old, self.d, pid)
+        target = z3.If(is_weakref(v_), D.deref(v_), v_)
+        designated = z3.And(has_attr(old, o, "_pyroId"), pid != U_NONE, p_, z3.Or(target == o, z3.And(is_class(target), instance_of(o, target))))
+        return [("refused only for an object whose id does not designate it (or its class) here, or whose weak registration has died", z3.Or(z3.Not(designated), is_weakref(v_))),
                 ("the registry is only read", same_entry(old, st, self.d, KSTAR))]
 
     def x_text(self, E, old, st, a, exc):
